@@ -77,10 +77,21 @@ func regionOf(b *ssa.BasicBlock) region {
 			addFn(a)
 		}
 	}
+	seenFn := map[*ssa.Function]bool{}
 	for _, x := range r.blocks {
 		for _, in := range x.Instrs {
 			if mc, ok := in.(*ssa.MakeClosure); ok {
-				addFn(mc.Fn.(*ssa.Function))
+				if f := mc.Fn.(*ssa.Function); !seenFn[f] {
+					seenFn[f] = true
+					addFn(f)
+				}
+			}
+			// closures without captured variables are plain function values
+			for _, op := range in.Operands(nil) {
+				if f, ok := (*op).(*ssa.Function); ok && f.Parent() != nil && !seenFn[f] {
+					seenFn[f] = true
+					addFn(f)
+				}
 			}
 		}
 	}
